@@ -228,8 +228,15 @@ func Flat(run *ev.Run, s *Spec, items [][]int) Stats {
 	}
 	seen := map[string]bool{}
 	st := Stats{Exhaustive: true}
+	results, timedOut := 0, false
 	pool.Do(reqs, func(r par.Result) {
 		h := items[r.Index]
+		// the internal wall-clock guard also holds inside a flat enumeration: the cases not started yet are
+		// skipped and the run is reported as not exhaustive (never an alarm)
+		if results++; results%256 == 0 && !timedOut && run.OutOfTime() {
+			timedOut = true
+			pool.Stop()
+		}
 		if r.Died {
 			run.Violation("process-death", fmt.Sprintf("%s: the node process died executing %v\n%s", s.Name, describe(h), r.Stderr), map[string]interface{}{"spec": s.Name, "history": h, "described": describe(h)})
 			return
@@ -261,5 +268,9 @@ func Flat(run *ev.Run, s *Spec, items [][]int) Stats {
 			st.MaxDepth = len(h)
 		}
 	})
+	if timedOut {
+		st.Exhaustive = false
+		run.Capped(fmt.Sprintf("%s: time budget reached after %d of %d cases of the flat enumeration (cases are taken in enumeration order)", s.Name, results, len(items)))
+	}
 	return st
 }
